@@ -7,7 +7,7 @@ use serde_json::json;
 
 use crate::bits::{hex, set_bits};
 use crate::common::{guarded, Run, Tier};
-use crate::e1::{all_leaves, e1_coverage, field_check, run_units, LeafSpec, Local};
+use crate::e1::{all_leaves, e1_coverage, field_check_owned, run_units_tagged, Case, LeafSpec, Local};
 use crate::refdec::RefObs;
 
 /// Reference derived velocity from the raw reference fields; None = "no derived velocity".
@@ -48,8 +48,8 @@ fn velocity_of(frame: &Frame) -> Option<&adsb_deku::adsb::AirborneVelocity> {
     }
 }
 
-fn check(bytes: &[u8], loc: &mut Local) {
-    let Some((r, frame)) = field_check(bytes, &[7], "velocity-fields", loc) else { return };
+fn check(bytes: &[u8], owners: (u8, u8), base_ok: bool, loc: &mut Local) {
+    let Some((r, frame)) = field_check_owned(bytes, owners, base_ok, &[7], "velocity-fields", loc) else { return };
     let leaf = r.layout.leaf.clone();
     let Some(v) = velocity_of(&frame) else {
         loc.viol("velocity-derived", format!("{leaf}:variant"), hex(bytes), "AirborneVelocity".into(), "other ME variant".into());
@@ -107,7 +107,7 @@ fn check(bytes: &[u8], loc: &mut Local) {
 pub fn run(tier: Tier) -> i32 {
     let run = Run::new("C07", tier);
     let leaves: Vec<LeafSpec> = all_leaves().into_iter().filter(|l| l.name.contains("/TC19/")).collect();
-    let st = run_units(&run, &leaves, true, true, |b, loc: &mut Local| check(b, loc));
+    let st = run_units_tagged(&run, &leaves, true, true, |c: &Case, base_ok: bool, loc: &mut Local| check(&c.bytes, c.owners, base_ok, loc));
 
     // joint sweep of (dir, vel, dir, vel) for the ground-speed subtypes, all vertical-rate codes
     let vels: Vec<u64> = if tier.thorough() {
@@ -148,7 +148,7 @@ pub fn run(tier: Tier) -> i32 {
                     set_bits(&mut b, 32 + 15, 10, *ev);
                     set_bits(&mut b, 32 + 26, 10, *nv);
                     loc.inc("joint_velocity_cases");
-                    check(&b, &mut loc);
+                    check(&b, (7, 7), true, &mut loc);
                 }
             }
             // all 2^11 (src, sign, rate) codes x boundary velocities
@@ -158,7 +158,7 @@ pub fn run(tier: Tier) -> i32 {
                     set_bits(&mut b, 32 + 26, 10, nv);
                     set_bits(&mut b, 32 + 36, 11, code);
                     loc.inc("rate_cases");
-                    check(&b, &mut loc);
+                    check(&b, (7, 7), true, &mut loc);
                 }
             }
             loc
